@@ -349,7 +349,8 @@ class WsHarness(object):
             finally:
                 self.children.discard(t)
         elif kind == 'close':
-            await self._join_bg()
+            if getattr(self, 'close_joins_bg', True):
+                await self._join_bg()       # else: senders of the second task race with the close
             self.closing = True
             try:
                 if len(op) > 2 and op[2] is not None:
